@@ -408,6 +408,9 @@ func (ctx drawContext) drawBackground(bg *bo.Background, clipBox bool, bleed bo.
 
 	ctx.dst.OnNewStack(func() {
 		if clipBox {
+			if len(bg.Layers[len(bg.Layers)-1].ClippedBoxes) == 0 {
+				return // nothing is visible: do not clip on an empty path
+			}
 			for _, box := range bg.Layers[len(bg.Layers)-1].ClippedBoxes {
 				roundedBoxPath(ctx.dst, box)
 			}
